@@ -197,6 +197,9 @@ func (w *world) condText(q *queryT) string {
 		parts = append(parts, quoteIdent(w.conc[q.Filter.X])+" = "+quoteStr(w.conc[q.Filter.Y]))
 	case "tagNeq":
 		parts = append(parts, quoteIdent(w.conc[q.Filter.X])+" != "+quoteStr(w.conc[q.Filter.Y]))
+	case "tagRe":
+		// matches every value of the key (both abstract values), not the empty string
+		parts = append(parts, quoteIdent(w.conc[q.Filter.X])+" =~ /^("+regexp.QuoteMeta(w.conc["a"])+"|"+regexp.QuoteMeta(w.conc["b"])+")$/")
 	}
 	return strings.Join(parts, " AND ")
 }
@@ -396,6 +399,8 @@ func (w *world) runQuery(ctx context.Context, q *queryT, exp *expT) (msg string,
 				em = append(em, m)
 				if q.Filter.C == "tagEq" {
 					ek, ev = append(ek, q.Filter.X), append(ev, q.Filter.Y)
+				} else if q.Filter.C == "tagRe" {
+					ek, ev = append(ek, q.Filter.X), append(ev, "")
 				} else {
 					ek, ev = append(ek, ""), append(ev, "")
 				}
